@@ -251,3 +251,85 @@ def after_failure(fi: int, twice: bool) -> None:
     assert ctx_ok, "after the failing call %r the decimal context is no longer the default one" % FAILING[fi]
     assert ok, "after the failing call %r arithmetic is no longer 28-digit half-even: %r" % (FAILING[fi], out[1] if out[0] == 'ok' else out)
     hlib.done()
+
+
+# numeric builtins applied to expression trees: compared with exact rationals
+BPOOL = ['0', '-1', '3', '-0.25', '0.5', '(1 - 1)', '(0.5 - 1)', '2.5', '-1.5', '0.0', '10000000000000000000000000001', '(0.1 + 0.2)', '-0.0']
+BVAL = [Fraction(0), Fraction(-1), Fraction(3), Fraction(-1, 4), Fraction(1, 2), Fraction(0), Fraction(-1, 2), Fraction(5, 2), Fraction(-3, 2),
+        Fraction(0), Fraction(10000000000000000000000000001), Fraction(3, 10), Fraction(0)]
+
+
+def _half_even(fr, nd=0):
+    sc = Fraction(10) ** nd
+    x = fr * sc
+    q, r = divmod(x.numerator, x.denominator)
+    if 2 * r > x.denominator or (2 * r == x.denominator and q % 2 == 1):
+        q += 1
+    return Fraction(q) / sc
+
+
+def _sig_digits(fr):
+    import decimal as _d
+    with _d.localcontext(_d.Context(prec=200)):
+        d = (RealDecimal(fr.numerator) / RealDecimal(fr.denominator)).normalize()
+    return len(d.as_tuple().digits)
+
+
+def _builtin_case(fn, form, i, j, k):
+    import math as _m
+    A, B, C = BPOOL[i], BPOOL[j], BPOOL[k]
+    a, b, c = BVAL[i], BVAL[j], BVAL[k]
+    if fn in ('min', 'max', 'sum'):
+        if form == 0:
+            text, vals = "%s([%s, %s, %s])" % (fn, A, B, C), [a, b, c]
+        elif form == 1:
+            text, vals = "[%s, %s] | %s" % (A, B, fn), [a, b]
+        elif form == 2:
+            text, vals = "%s([%s])" % (fn, A), [a]
+        else:
+            if fn == 'sum':
+                return True, ''
+            text, vals = "%s(%s, %s)" % (fn, A, B), [a, b]
+        if fn == 'sum':
+            exp = Fraction(0)
+            for v in vals:
+                exp = _round28(exp + v)
+        else:
+            exp = min(vals) if fn == 'min' else max(vals)
+    else:
+        text = "%s(%s)" % (fn, A) if form % 2 == 0 else "%s | %s" % (A, fn)
+        exp = {'abs': lambda: abs(a), 'floor': lambda: Fraction(_m.floor(a)), 'ceil': lambda: Fraction(_m.ceil(a)),
+               'int': lambda: Fraction(int(a)), 'round': lambda: _half_even(a)}[fn]()
+        if fn == 'round' and form >= 2:
+            text, exp = "round(%s, 1)" % A, _half_even(a, 1)
+    out = run_eval(text, {}, 100, parser=PARSER)
+    if out[0] != 'ok':
+        # an error is acceptable only where the exact result does not fit 28 significant digits (e.g. round(x, 1) of a 29-digit x)
+        return _sig_digits(exp) > 28, "%s fails (%s) although the exact result %s fits 28 digits" % (text, out[1:], exp)
+    # abs / min / max of an operand wider than the context may or may not be rounded to it (both are "correctly rounded")
+    ok = not isinstance(out[1], (bool, float)) and Fraction(out[1]) in (exp, _round28(exp))
+    return ok, "%s = %s disagrees with exact rational arithmetic (%s)" % (text, (out[1] if out[0] == 'ok' else out[1:]), exp)
+
+
+def builtin_exact(form: int, i: int, j: int, k: int) -> None:
+    """
+    pre: 0 <= form <= 3 and 0 <= i < 13 and 0 <= j < 13 and 0 <= k < 13
+    post: True
+    """
+    hlib.enter(locals())
+    fn = hlib.PARAM["fn"]
+    form, i = hlib.concrete(form, 0, 3), hlib.concrete(i, 0, 12)
+    bad = None
+    with hlib.native():
+        # the solver picks the call form and the first operand; the other operands are looped over natively
+        multi = fn in ('min', 'max', 'sum')
+        for jj in (range(13) if multi and form != 2 else [0]):
+            for kk in (range(13) if multi and form == 0 else [0]):
+                ok, msg = _builtin_case(fn, form, i, jj, kk)
+                if not ok:
+                    bad = msg
+                    break
+            if bad:
+                break
+    assert bad is None, bad
+    hlib.done()
